@@ -83,7 +83,10 @@ DecVals(k, ctx, n) ==
     [] k \in IntKinds -> Syms(k, {"0", "1", "min", "max"}, {"min"})
     [] k = "ntu32" -> Syms("u32", {"0", "max"}, {"max"})
     [] k = "optu32" -> Syms("u32", {"0", "max"}, {"0"})
-    [] k \in {"f32", "f64"} -> Syms(k, {"0", "1.5", "-2.5e-3", "max", "nan"}, {"-2.5e-3", "nan"})
+    \* ("=<text>": the wire carries this decimal text as it is -- more digits than a double holds, just above the midpoint of two neighbouring
+    \*  single-precision values: the field is the float nearest to the TEXT, not the float nearest to the double nearest to the text)
+    [] k \in {"f32", "f64"} -> Syms(k, {"0", "1.5", "-2.5e-3", "max", "nan", "=16777217.0000000001", "=1.000000059604644775390625000000000001"},
+                                        {"-2.5e-3", "nan", "=16777217.0000000001", "=1.000000059604644775390625000000000001"})
     [] k \in {"str", "ntstr", "optstr"} -> WStr(ctx, n)
     [] k = "char" -> {w \in WStr(ctx, 1) : Len(w) = 1}
     [] k = "enum" -> Syms("enum", {"A", "Bee", "dark_red"}, {"Bee", "dark_red"})
